@@ -336,6 +336,20 @@ pub fn build_module(log: Log, subs: SubRegistry, auto_sub: bool, hang: tokio::sy
 		.unwrap();
 	}
 	{
+		// a subscription whose handler rejects the call with an error object carrying n bytes of data: [n]
+		let log = log.clone();
+		m.register_subscription("rsub", "rnotif", "runsub", move |p, pending, _, ext| {
+			let log = log.clone();
+			async move {
+				log_invocation(&log, &ext, "rsub", &p);
+				let n: usize = p.one().unwrap_or(0);
+				pending.reject(ErrorObjectOwned::owned(-32053, "rejected", Some("d".repeat(n)))).await;
+				Ok::<(), jsonrpsee_core::SubscriptionError>(())
+			}
+		})
+		.unwrap();
+	}
+	{
 		let (log, subs) = (log.clone(), subs.clone());
 		m.register_subscription("sub", "notif", "unsub", move |p, pending, _, ext| {
 			let (log, subs) = (log.clone(), subs.clone());
